@@ -15,8 +15,8 @@ import (
 
 // VerifC07CalcNext exposes calculateNextQuota.
 func VerifC07CalcNext(upstreamTotal proxyv1alpha1.RateLimitItemConfiguration, upstreamUsed proxyv1alpha1.RateLimitItemStatus,
-	cfg proxyv1alpha1.RateLimitItemConfiguration, status proxyv1alpha1.RateLimitItemStatus, clients int) proxyv1alpha1.RateLimitItemConfiguration {
-	return calculateNextQuota(upstreamTotal, upstreamUsed, cfg, status, clients, &proxyv1alpha1.RateLimitCondition{})
+	cfg, recorded proxyv1alpha1.RateLimitItemConfiguration, status proxyv1alpha1.RateLimitItemStatus, clients int) proxyv1alpha1.RateLimitItemConfiguration {
+	return calculateNextQuota(upstreamTotal, upstreamUsed, cfg, recorded, status, clients, &proxyv1alpha1.RateLimitCondition{})
 }
 
 type verifC07Leader struct{}
